@@ -24,6 +24,7 @@ from .values import (
     Pair,
     StructStr,
     SymDict,
+    SymIter,
     SymList,
     U,
     Unsupported,
@@ -178,7 +179,7 @@ class Frame(object):
         self.handling = []
 
 
-SPECIAL_TYPES = (StructStr, SymList, SymDict, Opaque, Obj, ClassVal, ModuleVal, FuncVal, BoundMethod, MethodRef)
+SPECIAL_TYPES = (StructStr, SymList, SymIter, SymDict, Opaque, Obj, ClassVal, ModuleVal, FuncVal, BoundMethod, MethodRef)
 
 MUTATORS = {
     "append", "extend", "insert", "remove", "pop", "clear", "sort", "reverse", "update", "add",
@@ -219,7 +220,7 @@ def has_special(v):
 
 def deep_concrete(v):
     t = type(v)
-    return not (t is U or t is Pair or t is StructStr or t is SymList or t is SymDict or t is Opaque or v is UNBOUND)
+    return not (t is U or t is Pair or t is StructStr or t is SymList or t is SymIter or t is SymDict or t is Opaque or v is UNBOUND)
 
 
 class Interp(object):
@@ -482,6 +483,10 @@ class Interp(object):
             for pres, v in list(it.elems):
                 yield pres, v
             return
+        if t is SymIter:
+            for pres, v in self.consume_iter(it, pc):
+                yield pres, v
+            return
         if t is SymDict:
             for k in list(it.keys):
                 yield it.pres[k], k
@@ -518,9 +523,38 @@ class Interp(object):
         for v in items:
             yield vc.CT, v
 
+    def consume_iter(self, sit, pc, upto=None):
+        """elements a consumer running under pc receives from a one-shot iterator; afterwards
+        the iterator holds what is left.  upto=None: everything is consumed; otherwise
+        upto(i, pres, value) -> Cond "the consumer stops right after element i" (any / all /
+        next), and element j stays iff the consumer is not running or stopped at some i < j."""
+        vc = self.vc
+        if sit.indeterminate:
+            raise Unsupported("iterator consumed again after a loop that may have left it half-way")
+        snap = [(p, v) for p, v in sit.elems]
+        if sit.epoch < current_epoch():
+            self.log_effect("iterator-consume", sit, None, pc)
+        new = []
+        stopped = vc.CF
+        for i, (p, v) in enumerate(snap):
+            keep = vc.c_not(pc) if upto is None else vc.c_or(vc.c_not(pc), stopped)
+            np_ = vc.c_and(p, keep)
+            if not vc.c_is_false(np_):
+                new.append([np_, v])
+            if upto is not None:
+                stopped = vc.c_or(stopped, vc.c_and(p, upto(i, p, v)))
+        sit.elems = new
+        return snap
+
     def st_For(self, st, fr, pc):
         vc = self.vc
         it = self.ev(st.iter, fr, pc)
+        if type(it) is SymIter and any(isinstance(x, (ast.Break, ast.Return)) for b in st.body for x in ast.walk(b)):
+            # what a broken-off loop leaves in the iterator is not modelled: a later consumer
+            # of the same iterator is refused
+            snap = self.consume_iter(it, pc)
+            it.indeterminate = True
+            it = SymList([list(e) for e in snap])
         pc = self.live(fr, pc)
         lp = Loop(vc.CF)
         fr.loops.append(lp)
@@ -1259,7 +1293,9 @@ class Interp(object):
         self.comp_iter(node.generators, 0, cfr, pc, emit)
         return out
 
-    ex_GeneratorExp = ex_ListComp
+    def ex_GeneratorExp(self, node, fr, pc):
+        # the elements are computed here (see SymIter); consumption is one-shot
+        return SymIter(self.ex_ListComp(node, fr, pc).elems)
 
     def ex_SetComp(self, node, fr, pc):
         lst = self.ex_ListComp(node, fr, pc)
@@ -1318,6 +1354,8 @@ class Interp(object):
             for k in v.keys:
                 res = vc.c_or(res, v.pres[k])
             return res
+        if t is SymIter:
+            return vc.CT  # an iterator object is always true
         if t is StructStr:
             return SS.nonempty(vc, v)
         if t is Opaque:
